@@ -125,6 +125,8 @@ class Registry:
     def spec(self, sig, body):
         """spec function: reg.spec('I(self)', '0 <= self._pos')"""
         name = sig.split("(")[0].strip()
+        if name in self.spec_src and self.spec_src[name] != (sig, body):
+            raise ValueError(f"spec function {name!r} defined twice with different bodies")
         node = ast.parse(f"lambda {sig[sig.index('(') + 1: sig.rindex(')')]}: ({body})", mode="eval").body
         self.spec_names[name] = VFunc(node, None, None, name)
         self.spec_src[name] = (sig, body)
